@@ -54,3 +54,11 @@ def run_batch(ctx, module: str, traces: list, *, batch: int = 2000, timeout: flo
             ctx.traces_validated += len(live)
             break
     return {"rejected": rejected, "invariant": inv, "diags": diags}
+
+
+def validate(ctx, module: str, traces: list, *, cfg: str | None = None, batch: int = 2000, timeout: float = 1800, dfs: bool = False,
+             env: dict | None = None) -> list[tuple[int, int]]:
+    """Compatibility wrapper: rejected traces as [(index, first unexplained line)]; an invariant violated along
+    a trace is reported as a rejection at line 0."""
+    res = run_batch(ctx, module, traces, batch=batch, timeout=timeout)
+    return res["rejected"] + [(i, 0) for i, _ in res["invariant"]]
